@@ -3,8 +3,10 @@
 Domain : generated Colang 2 programs (vf/co2.py: start/await/activate of flows and actions, when/or when, and/or groups of
          awaits, abort, return, loops) x histories mixing alphabet events (incl. co-simulated 'hit' events) with Started /
          Finished of running actions arriving late, early or never x tie-break outcomes; optionally 2-3 'sharer' flows that
-         co-win one identical action on a common event and end at different times (shared Action object); enumerated
-         families: no-wait activated flows, same-event races, restart races, shared actions, activations with arguments;
+         co-win one identical action on a common event and end at different times (shared Action object) - the sharers may
+         also be two heads of ONE flow ('twin' statements: await-groups / when-cases listing the identical action in two
+         or-branches), ended from outside while the flow waits in its group; enumerated families: no-wait activated flows,
+         same-event races, restart races, shared actions, twin heads, activations with arguments;
          optionally a parametrised flow activated 2-4 times with drawn argument spellings (several configurations of one flow,
          several activators of one configuration) by main and by wrapper flows that end at different times.
 Oracle : history invariants checked after every processed event, from the outgoing events and a read-only look at State:
@@ -31,7 +33,12 @@ RULE = (
     "enumerated: activated flows without any waiting statement (must run exactly once; 16 programs); a same-event race family (flow p queues start/activate/await of b, an action or a send while its parent q finishes/aborts/returns on the same "
     "event; both advancing orders; b pre-activated or not; p and q started or activated; 640 programs x 2 histories incl. idle time) and a restart-race family (an activated flow already restarted 0-2 times ends on the very event that ends its last activator; 36 programs) and a shared-action family (flows a, b and optionally c reach the identical action - start as $ref / anonymous start / await, "
     "in 5 pairings - on the same event in the same loop, so one Action object is shared; a more specific, b more specific, or equal scores with both tie-break outcomes; a started, started-and-aborting or activated; "
-    "b and c ending in one step; every order of {a ends, b ends, Started, Finished} with and without idle time, then the common event again; 80 programs x 64 histories in the quick tier, 120 x 88 in the thorough tier) and an "
+    "b and c ending in one step; every order of {a ends, b ends, Started, Finished} with and without idle time, then the common event again; 80 programs x 64 histories in the quick tier, 120 x 88 in the thorough tier) and a "
+    "twin-head family (ONE flow p reaches the identical action through two of its own heads in the same processing cycle, so p alone holds two references to one shared Action: 10 forms - `await A and (m1 or m2)` (normalised to (A and m1) or (A and m2)), "
+    "`await (A and m1) or (A and m2)`, `await A or A`, `await (A and m1) or A`, `await A or A or B`, `await A and (m1 or m2 or B)`, `when A and m1 / or when A and m2`, `when A / or when A`, `when A and m1 / or when A`, `when A and Em1() / or when A and Em2()`; "
+    "p is ended from outside while it waits in its group in 5 ways - its parent q finishes, q aborts, q had activated p, a when-scope of q that started p is left, q itself activated by main; with no rival or with a rival flow b that reaches the same action on the same event "
+    "by `start ... as` / `await` (three references, two in one flow; equal scores with each tie-break outcome, or p / b more specific); every order of {q ends, member flow m1 finishes, Started, Finished} with the rival's end inserted at three positions "
+    "(quick tier: one position per order), with and without idle time before the last item, then the common event and the ending events again; 5400 cases in the quick tier, 40800 in the thorough tier) and an "
     "activation-argument family (flow b with one parameter without default / one with default / two parameters; flows a and c whose first statement is `activate b <arguments>`, over every ordered pair of spellings from "
     "{omitted, positional, named, the default spelled out, None, another value; for two parameters also partly omitted / mixed}: different configurations, or one configuration with two activators; c started together with a, or later "
     "when b may already have been restarted, or a executes both activations and c holds the second one too, or a third activator d with a's arguments arrives after a has ended and stayed idle for more than 5 s (ended flows are then dropped "
@@ -44,6 +51,10 @@ RULE = (
     "`match Ev<e>` (with or without a parameter, i.e. equal or different matching scores) followed by the identical action (start as $ref / await), then a tail drawn from the same grammar (may call every helper, abort, return, wait for "
     "the shared reference or end at once); they are started or activated by main (at the top or at a drawn position) or by a wrapper flow that ends at some point, all in one loop - so one event makes them co-win one shared action and the "
     "history decides in which order the sharers end relative to its Started / Finished (labels sharer-flows-added, shared-action-observed, sharer-ended-while-shared, finished-after-a-sharer-ended, last-sharer-ended-after-finished / -unfinished); "
+    "in a third of the sharer cases the sharers are (also) heads of ONE flow: 1-3 sharer flows of which the first (and every further one with probability 1/3) reaches the action through a twin statement drawn from the 10 forms above, over member flows drawn from "
+    "the parameterless helpers of the program and two small member flows added for the purpose (one event, then nothing / a send / abort - a failing member fails and-branches), when-case bodies drawn from the grammar; the twin statement follows the common `match` "
+    "or (started flows, 1 in 4) is the flow's first statement; these sharers mostly (2 in 3) sit below the wrapper flow, whose drawn tail ends them from outside while they wait in their group - or the group completes first, or the action finishes first "
+    "(labels twin-statements-added, twin-form-*, one-flow-holds-action-twice, twin-flow-ended-action-unfinished, twin-flow-ended-action-still-shared-with-other-flow, twin-flow-ended-after-action-finished); "
     "independently, in about a third of the cases a parametrised target flow (parameter without default, with default 0 / 1, or two parameters; body drawn from the grammar, may test its parameters) is added together with 2-4 "
     "`activate target <arguments>` statements whose arguments are drawn per parameter (omitted / positional / named, values 0, 1, None): each statement sits in main at a drawn position or is the first statement of a wrapper flow of its own "
     "with a drawn tail, started or activated by main - so one flow runs in several configurations, or one configuration has several activators, which end at different times (labels arg-activations-added, "
@@ -58,6 +69,8 @@ ASSUMPTIONS = [
     "actions are identified by the action_uid of their Start event; Finished events are only ever sent for started actions",
     "a history is cut (label history-cut-at-150-flow-instances, everything up to the cut is checked) once more than 150 flow instances exist (ordinary cases stay below 50; the cost per event grows quadratically): recursive programs in which every instance starts several new ones grow exponentially and would only run into the case timeout",
     "an action is 'shared with a still-running flow' when its uid is in the action list of a running flow (read-only look at FlowState.action_uids); which of the sharers the interpreter regards as the owner is not used by the oracle - both tie-break outcomes and both orders of ending are generated instead",
+    "a flow whose two heads co-won one action counts as ONE holder of it (however often the interpreter lists the uid): when that flow ends and no OTHER running flow lists the action, exactly one Stop is due; the duplicate entry is only read for labels (one-flow-holds-action-twice, twin-*)",
+    "twin statements are await-groups and when-cases only: a `start` group that reaches one action through two or-branches (`start A and (m1 or m2)`, `start (A as $r and m1) or (A as $r and m2)`) is left out - on the unchanged tree the action whose Start event was sent is dropped from State.actions and every later event raises KeyError out of run_to_completion (reported as an observation; the statement says nothing about exceptions and the crash hides the lifetimes)",
 ]
 WALL = {"quick": 170, "thorough": 1500}
 MAX_FLOW_INSTANCES = 150  # ordinary cases stay below 50; only self-multiplying recursive programs get here
@@ -71,12 +84,67 @@ PROFILE = {"recursion": True, "boost": ["startact", "startact", "awaitact", "sta
 SHARE_REF = 90  # reference number of the common action / of the sharer flows (the grammar counts its own from 0)
 
 
+# 'Twin' statements: ONE flow reaches the identical action through TWO of its own heads in the same processing cycle (an
+# await-group whose normal form lists the action in two or-branches, or two cases of one when-block), so the flow itself holds
+# two references to one shared Action. {A} = the action, {B} = another action, {f} / {g} = member flows, {e} / {d} = events;
+# the lines after the first one of a when-form are the `or when` cases (bodies are filled in by the caller).
+TWIN_FORMS = {
+    "and-or": ["await {A} and ({f} or {g})"],  # normalised to (A and f) or (A and g)
+    "or-and": ["await ({A} and {f}) or ({A} and {g})"],
+    "or-same": ["await {A} or {A}"],
+    "or-and-bare": ["await ({A} and {f}) or {A}"],
+    "or-same-3": ["await {A} or {A} or {B}"],
+    "and-or-3": ["await {A} and ({f} or {g} or {B})"],
+    "when-and": ["when {A} and {f}", "or when {A} and {g}"],
+    "when-same": ["when {A}", "or when {A}"],
+    "when-mixed": ["when {A} and {f}", "or when {A}"],
+    "when-event": ["when {A} and {e}", "or when {A} and {d}"],
+}
+
+
+def _twin_lines(form, subst, bodies):
+    """Lines (relative to the indentation of the statement) of a twin statement; bodies = one list of lines per when-case."""
+    out = []
+    for i, line in enumerate(TWIN_FORMS[form]):
+        for key, val in subst.items():
+            line = line.replace("{" + key + "}", val)
+        out.append(line)
+        if form.startswith("when"):
+            out += ["  " + b for b in bodies[i]]
+    return out
+
+
+@st.composite
+def _twin_stmt(draw, ctx, helper_params, act, members):
+    """A twin statement over the action `act` for a generated flow (rendered as one raw statement at flow-body level; the
+    bodies of when-cases are drawn from the grammar and kept under "cases" for the walkers over the program)."""
+    form = draw(st.sampled_from(sorted(TWIN_FORMS)))
+    f, g = draw(st.lists(st.sampled_from(members), min_size=2, max_size=2, unique=True))
+    e, d = draw(st.lists(st.integers(0, co2.EVENTS - 1), min_size=2, max_size=2, unique=True))
+    other = draw(st.sampled_from([a for a in range(len(co2.ACTIONS)) if a != act]))
+    text = lambda a: f"{co2.ACTIONS[a][0]}({co2.ACTIONS[a][1]})"  # noqa: E731
+    subst = {"A": text(act), "B": text(other), "f": f"h{f}", "g": f"h{g}", "e": f"Ev{e}()", "d": f"Ev{d}()"}
+    cases, bodies = [], []
+    if form.startswith("when"):
+        for _ in TWIN_FORMS[form]:
+            stmts = draw(co2._stmts(ctx, 0, helper_params, 1, 2))
+            lines = []
+            co2._body(stmts, 0, lines)
+            cases.append({"body": stmts})
+            bodies.append(lines)
+    lines = _twin_lines(form, subst, bodies)
+    return {"k": "raw", "text": "\n  ".join(lines), "twin": form, "cases": cases}
+
+
 @st.composite
 def _with_sharers(draw, prog):
     """Adds 2-3 'sharer' flows to a generated program: each reaches, after its own drawn prefix, the same `match Ev<e>` followed by
     the identical action (start ... as $ref / await ...), so that one event makes them co-win ONE shared action; what follows
     (drawn from the same grammar, may call every helper of the program, abort, return, finish at once) decides when each of them
-    ends. They are started / activated by main or by a wrapper flow that ends itself at some point (all sharers end in one step)."""
+    ends. They are started / activated by main or by a wrapper flow that ends itself at some point (all sharers end in one step).
+    In a third of these cases the sharers are (also) heads of ONE flow: 1-3 sharer flows of which the first (and each further one
+    with probability 1/3) reaches the action through a 'twin' statement (TWIN_FORMS: await-groups / when-cases that list the
+    identical action in two or-branches, over member flows of the program or two small member flows added for the purpose)."""
     flows = prog["flows"]
     main = flows[-1]
     nh = len(flows) - 1
@@ -84,35 +152,56 @@ def _with_sharers(draw, prog):
     prof = dict(co2.DEFAULT_PROFILE)
     prof.update(PROFILE)
     k = draw(st.sampled_from([2, 2, 3]))
+    twin_mode = draw(st.integers(0, 2)) == 0
+    if twin_mode:
+        k = draw(st.sampled_from([1, 1, 2, 3]))
     ev = draw(st.integers(0, co2.EVENTS - 1))
     act = draw(st.integers(0, len(co2.ACTIONS) - 1))
     loop = draw(st.sampled_from([None, None, None, "L1"]))
+    # a flow that holds the action twice has to be ended from outside while it waits in its group: mostly below a wrapper
+    host = draw(st.sampled_from(["main", "wrapper", "wrapper"] if twin_mode else ["main", "main", "wrapper"]))
+    how = [draw(st.sampled_from(["startflow", "startflow", "startflow", "activate"])) for _ in range(k)]
     inits = [{"k": "assign", "var": v, "expr": 0} for v in co2.VARS]
     new = []
+    twins = []
+    # member flows of the twin groups: the parameterless helpers of the program and two small flows added below
+    first_member = nh + k + (1 if host == "wrapper" else 0)
+    members = [j for j in range(nh) if not helper_params[j]] + [first_member, first_member + 1]
     for i in range(k):
         ctx = co2.Ctx(-1, nh, [], prof)
         pre = draw(st.sampled_from([[], [], [], [{"k": "send", "n": 7}], [{"k": "match", "ev": (ev + 1) % co2.EVENTS, "v": None}]]))
-        wait = {"k": "match", "ev": ev, "v": draw(st.sampled_from([None, None, 1]))}
-        if draw(st.integers(0, 2)) == 0:
+        pre = pre + [{"k": "match", "ev": ev, "v": draw(st.sampled_from([None, None, 1]))}]
+        if twin_mode and (i == 0 or draw(st.integers(0, 2)) == 0):
+            common = draw(_twin_stmt(ctx, helper_params, act, members))
+            twins.append(f"h{nh + i}")
+            if how[i] == "startflow" and draw(st.integers(0, 3)) == 0:
+                pre = []  # the twin statement is the first (waiting) statement of the flow
+        elif draw(st.integers(0, 2)) == 0:
             common = {"k": "awaitact", "a": act}
         else:
             common = {"k": "startact", "a": act, "ref": SHARE_REF}
             ctx.vis_a = [SHARE_REF]
         tail = draw(co2._stmts(ctx, 1, helper_params, 0, 3, need_wait_first=draw(st.sampled_from([True, True, False]))))
-        new.append({"name": f"h{nh + i}", "params": [], "loop": loop, "body": inits + pre + [wait, common] + tail})
-    how = [draw(st.sampled_from(["startflow", "startflow", "startflow", "activate"])) for _ in range(k)]
+        new.append({"name": f"h{nh + i}", "params": [], "loop": loop, "body": inits + pre + [common] + tail})
     calls = [{"k": "activate", "f": nh + i} if how[i] == "activate" else {"k": "startflow", "f": nh + i, "arg": None, "ref": SHARE_REF + i} for i in range(k)]
-    host = draw(st.sampled_from(["main", "main", "wrapper"]))
     if host == "wrapper":
         ctx = co2.Ctx(-1, nh, [], prof)
         tail = draw(co2._stmts(ctx, 1, helper_params, 0, 2, need_wait_first=True))
         new.append({"name": f"h{nh + k}", "params": [], "loop": None, "body": inits + calls + tail})
         calls = [{"k": draw(st.sampled_from(["startflow", "startflow", "activate"])), "f": nh + k, "arg": None, "ref": SHARE_REF + k}]
+    if twin_mode:
+        for j in (0, 1):
+            wait = {"k": "match", "ev": draw(st.integers(0, co2.EVENTS - 1)), "v": draw(st.sampled_from([None, None, 0, 1]))}
+            tail = draw(st.sampled_from([[], [], [{"k": "send", "n": 8}], [{"k": "abort"}]]))
+            new.append({"name": f"h{first_member + j}", "params": [], "loop": loop, "body": inits + [wait] + tail})
     at = draw(st.sampled_from([len(co2.VARS), len(co2.VARS), None]))
     if at is None:
         at = draw(st.integers(len(co2.VARS), len(main["body"]) - 1))
     body = main["body"][:at] + calls + main["body"][at:]
-    return {"flows": flows[:-1] + new + [dict(main, body=body)]}, {"n": k, "host": host, "activated": how.count("activate")}
+    info = {"n": k, "host": host, "activated": how.count("activate")}
+    if twins:
+        info["twins"] = twins
+    return {"flows": flows[:-1] + new + [dict(main, body=body)]}, info
 
 
 # Activations with arguments. A flow configuration = flow + values of its parameters (docs, "Activate a Flow": "a specific flow
@@ -354,6 +443,69 @@ def _shared_cases(tier):
                         yield {"leg": "race", "family": "shared", "text": text, "hist": hist, "choices": list(choices), "activators": {"a": ["main"], "b": [], "c": []}}
 
 
+# Twin heads (enumerated): flow p reaches the identical action through two of its own heads (TWIN_FORMS) on the event E, so p
+# alone holds two references to one shared Action - optionally a rival flow b reaches the same action on the same event too
+# (three references, two of them in one flow). Then p is ended FROM OUTSIDE while it waits in its group - its parent q finishes,
+# aborts, q had activated p, or a when-scope of q that started p is left - in every order relative to a member flow finishing
+# (m1: an and-branch / a when-case is half done), the action's Started / Finished (Finished completes or-groups normally) and
+# the rival ending; then the common event and the ending event again.
+TWIN_ENDS = {
+    "finish": (["start p", "match Kill()"], "start"),
+    "abort": (["start p", "match Kill()", "abort"], "start"),
+    "activate": (["activate p", "match Kill()"], "start"),
+    "scope": (["when p", "  send Q1()", "or when Kill()", "  send Q2()", "match Kq()"], "start"),
+    "q-activated": (["start p", "match Kill()"], "activate"),
+}
+TWIN_RIVALS = {"none": None, "as": 'start {A} as $x', "await": 'await {A}'}
+TWIN_ACTION = 'UtteranceBotAction(script="same")'
+
+
+def _twin_text(form, end, rival, p_match, b_match):
+    subst = {"A": TWIN_ACTION, "B": 'GestureBotAction(gesture="other")', "f": "m1", "g": "m2", "e": "Em1()", "d": "Em2()"}
+    lines = ["flow m1", "  match Em1()", "", "flow m2", "  match Em2()", "  send OutM2()", "", "flow p", f"  match {p_match}"]
+    lines += ["  " + x for x in _twin_lines(form, subst, [["send W1()"], ["send W2()", "match Ew()"]])] + ["  send OutP()", "  match Ep()", ""]
+    if TWIN_RIVALS[rival]:
+        lines += ["flow b", f"  match {b_match}", "  " + TWIN_RIVALS[rival].replace("{A}", TWIN_ACTION), "  match Eb()", "  send OutB()", ""]
+    q_body, q_mode = TWIN_ENDS[end]
+    lines += ["flow q"] + ["  " + x for x in q_body] + [""]
+    lines += ["flow main", f"  {q_mode} q"] + (["  start b"] if TWIN_RIVALS[rival] else []) + ["  match Never()", ""]
+    return "\n".join(lines)
+
+
+def _twin_cases(tier):
+    import itertools
+
+    quick = tier == "quick"
+    base = [["raw", "Kill", None], ["raw", "Em1", None], ["finished", 0], ["started", 0]]
+    # the invariants are checked after every step, so a history covers its prefixes: only full orders are listed
+    plain = [list(p) for p in itertools.permutations(base)]
+    with_rival = []
+    for n, p in enumerate(plain):
+        for at in [0, 2, 4] if not quick else [n % (len(p) + 1)]:
+            with_rival.append(list(p[:at]) + [["raw", "Eb", None]] + list(p[at:]))
+    closing = [["raw", "E", 1], ["raw", "Kill", None], ["raw", "Em2", None], ["finished", 0], ["raw", "Kq", None]]
+    for fi, form in enumerate(sorted(TWIN_FORMS)):
+        for ei, end in enumerate(TWIN_ENDS):
+            rivals = list(TWIN_RIVALS)
+            if quick:
+                rivals = ["none", rivals[1 + (fi + ei) % 2]]
+            for rival in rivals:
+                # scores: p and the rival equal (tie-break among three heads), or one of them more specific; both heads of p always tie
+                scores = [("E()", "E()", []), ("E()", "E()", [1]), ("E()", "E()", [2]), ("E(v=1)", "E()", [1]), ("E()", "E(v=1)", [])] if rival != "none" else [("E()", "E()", []), ("E()", "E()", [1])]
+                if quick and rival != "none":
+                    scores = scores[(fi + ei) % 2 :: 2]
+                for p_match, b_match, choices in scores:
+                    text = _twin_text(form, end, rival, p_match, b_match)
+                    hs = plain if rival == "none" else with_rival
+                    for hi, h in enumerate(hs):
+                        for aged in [hi % 3 == 0] if quick or rival != "none" else [False, True]:
+                            hist = [["raw", "E", 1]] + [list(x) for x in h]
+                            if aged:
+                                hist = hist[:-1] + [["age"], hist[-1]]
+                            hist += [list(x) for x in closing]
+                            yield {"leg": "race", "family": "twin", "text": text, "hist": hist, "choices": list(choices), "activators": {"p": ["q"], "q": ["main"]}, "twins": ["p"], "form": form, "end": end, "rival": rival}
+
+
 # Activations with arguments (enumerated): flow b with a parameter without default / with default / two parameters; flows a and c
 # each execute `activate b <arguments>` as their first statement (so a running instance of a / c HAS activated its configuration),
 # in every ordered pair of spellings (omitted, positional, named, the default spelled out, None, another value); c is started
@@ -434,6 +586,7 @@ def enumerate_cases(tier):
     yield from _nowait_cases()
     yield from _restart_race_cases()
     yield from _shared_cases(tier)
+    yield from _twin_cases(tier)
     yield from _args_cases(tier)
     hists = [
         [["raw", "E", 1], ["raw", "Eb", None], ["raw", "StopKeeper", None], ["raw", "Eb", None], ["raw", "E", 1], ["raw", "Eb", None]],
@@ -499,6 +652,7 @@ class Ledger:
         self.shared = set()  # action uids seen in the action list of two running flows at once
         self.lost_sharer = set()  # shared, unfinished action uids of which one holder ended while another one kept running
         self.flags = set()  # which shapes of the shared-action life cycle the history went through (labels only)
+        self.twins = set()  # names of the flows that contain a twin statement (labels only)
 
 
 _NO_PARAMETERS = {}
@@ -553,6 +707,14 @@ def _check_step(prev, cur, ledger, outs, activators, text, where):
         live_acts = [a for a in acts if a in ledger.started and a not in ledger.finished]
         if kids or live_acts:
             ended_with_dependants = True
+        if f["flow_id"] in ledger.twins and len(f["actions"]) != len(set(f["actions"])):
+            twice = {a for a in f["actions"] if f["actions"].count(a) > 1}
+            if twice & set(live_acts):
+                ledger.flags.add("twin-flow-ended-action-unfinished")
+                if any(a in cur[r]["actions"] for r in running_now for a in twice):
+                    ledger.flags.add("twin-flow-ended-action-still-shared-with-other-flow")
+            elif twice & ledger.finished:
+                ledger.flags.add("twin-flow-ended-after-action-finished")
         for a in live_acts:
             shared = any(a in cur[r]["actions"] for r in running_now)
             if shared:
@@ -574,9 +736,15 @@ def _check_step(prev, cur, ledger, outs, activators, text, where):
                 ledger.flags.add("last-sharer-ended-after-finished")
     holders = {}
     for uid in running_now:
-        for a in cur[uid]["actions"]:
+        for a in set(cur[uid]["actions"]):  # a flow may list one action twice (two of its heads co-won it): one holder
             holders[a] = holders.get(a, 0) + 1
     ledger.shared.update(a for a, n in holders.items() if n > 1 and a in ledger.started)
+    for uid in running_now:
+        acts = cur[uid]["actions"]
+        if len(acts) != len(set(acts)):
+            ledger.flags.add("one-flow-holds-action-twice")
+            if any(ledger.stops.get(a, 0) and acts.count(a) > 1 for a in acts):
+                ledger.flags.add("twin-action-stopped-while-its-flow-runs")
     # (c)/(e) orphans
     per_config = {}  # labels only: running activated instances per configuration
     for uid in running_now:
@@ -729,6 +897,7 @@ def prop(case):
     except Exception as e:
         raise Violation("exception-at-start:" + type(e).__name__, f"{e!r}"[:300] + "\n" + text)
     ledger = Ledger()
+    ledger.twins = set(case.get("twins") or (case.get("share") or {}).get("twins") or [])
     prev = {}
     cur = _snapshot(s.state)
     nt = _check_step(prev, cur, ledger, s.start_events, activators, text, "after start")
@@ -777,7 +946,9 @@ def prop(case):
     from collections import Counter
 
     kinds = co2.count_kinds(case["prog"]) if case.get("leg") != "race" else Counter()
-    labels = [{"shared": "shared-family", "args": "args-family"}.get(case.get("family"), "race-family")] if case.get("leg") == "race" else []
+    labels = [{"shared": "shared-family", "args": "args-family", "twin": "twin-family"}.get(case.get("family"), "race-family")] if case.get("leg") == "race" else []
+    if case.get("family") == "twin":
+        labels += ["twin-form-" + case["form"], "twin-end-" + case["end"], "twin-rival-" + case["rival"]]
     if case.get("family") == "args":
         labels.append("args-signature-" + case["sig"])
     if case.get("argact"):
@@ -789,6 +960,10 @@ def prop(case):
         labels.append("configuration-with-several-activators")
     if case.get("share"):
         labels.append("sharer-flows-added")
+        if case["share"].get("twins"):
+            labels.append("twin-statements-added")
+            for fl in case["prog"]["flows"]:
+                labels += ["twin-form-" + s["twin"] for s in fl["body"] if s.get("twin")]
     if ledger.shared:
         labels.append("shared-action-observed")
     if ledger.lost_sharer:
